@@ -31,15 +31,23 @@ func c19Key(name string) string {
 }
 
 type c19Mon struct {
-	inside [4]bool
-	key    [4]string
+	inside   [4]bool
+	key      [4]string
+	lenient  bool // record an exclusion violation instead of asserting at once
+	violated bool
 }
 
 func (m *c19Mon) enter(g int, key string) {
 	vRaceOff()
 	for o := range m.inside {
 		if o != g && m.inside[o] {
-			vAssert(m.key[o] != key, "mutual-exclusion: two holders of one key")
+			if m.lenient {
+				if m.key[o] == key {
+					m.violated = true
+				}
+			} else {
+				vAssert(m.key[o] != key, "mutual-exclusion: two holders of one key")
+			}
 		}
 	}
 	m.inside[g], m.key[g] = true, key
@@ -154,9 +162,56 @@ func H_C19_cancelled() {
 	vReach("c19-cancelled-ctx")
 }
 
+// H_C19_badunlock_race: an Unlock of a key nobody holds, racing with lockers of that key, panics
+// and leaves the map consistent: mutual exclusion still holds and nothing leaks. Schedules in which
+// the stray Unlock happens while a goroutine really holds the key release that goroutine's lock
+// (the map cannot tell callers apart): that is misuse outside the property and those paths are dropped.
+func H_C19_badunlock_race() {
+	l := NewTransientLockMap()
+	mon := &c19Mon{lenient: true}
+	ctxs := []*vTestCtx{{done: make(chan struct{})}, {done: make(chan struct{})}}
+	var holderPanicked [2]bool
+	for g := 0; g < 2; g++ {
+		g := g
+		vGo(func() {
+			if l.Lock(ctxs[g], "a") {
+				mon.enter(g, "a")
+				vYield()
+				mon.exit(g)
+				func() {
+					defer func() {
+						if recover() != nil {
+							holderPanicked[g] = true
+						}
+					}()
+					l.Unlock("a")
+				}()
+			}
+		})
+	}
+	strayPanicked := false
+	vGo(func() {
+		defer func() {
+			if recover() != nil {
+				strayPanicked = true
+			}
+		}()
+		l.Unlock("a")
+	})
+	vJoin()
+	vRaceOff()
+	vAssume(strayPanicked) // otherwise the stray Unlock released a lock that was really held
+	vReach("c19-badunlock-panicked")
+	vAssert(!holderPanicked[0] && !holderPanicked[1], "a-rejected-unlock-does-not-disturb-real-holders")
+	vAssert(!mon.violated, "mutual-exclusion-holds-after-a-rejected-unlock")
+	vAssert(len(l.locks) == 0, "no-leak-after-a-rejected-unlock")
+	vReach("c19-badunlock-race")
+}
+
 var vHarnesses = map[string]func(){
-	"H_C19_two":       H_C19_two,
-	"H_C19_three":     H_C19_three,
-	"H_C19_badunlock": H_C19_badunlock,
-	"H_C19_cancelled": H_C19_cancelled,
+	"H_C19_badunlock_race": H_C19_badunlock_race,
+	"H_C19_two":            H_C19_two,
+	"H_C19_three":          H_C19_three,
+	"H_C19_badunlock":      H_C19_badunlock,
+	"H_C19_cancelled":      H_C19_cancelled,
 }
